@@ -185,15 +185,27 @@ func StoreView(ctx context.Context, w Wiring, bkt objstore.Bucket, lister string
 	if err != nil {
 		return nil, err
 	}
-	metaFetcher, err := block.NewMetaFetcher(logger, w.MetaFetchConcurrency, insBkt, blockLister, "", nil,
-		[]block.MetadataFilter{
-			parquetConvertedBlocksFilter,
-			block.NewTimePartitionMetaFilter(minT, maxT),
-			block.NewLabelShardedMetaFilter(nil),
-			block.NewConsistencyDelayMetaFilterWithoutMetrics(logger, w.StoreConsistencyDelay),
-			ignoreDeletionMarkFilter,
-			block.NewDeduplicateFilter(w.MetaFetchConcurrency),
-		})
+	// the chain in the order written in cmd/thanos/store.go (Wiring.StoreChain)
+	var storeChain []block.MetadataFilter
+	for _, e := range w.StoreChain {
+		switch {
+		case e == "parquetConvertedBlocksFilter":
+			storeChain = append(storeChain, parquetConvertedBlocksFilter)
+		case strings.HasPrefix(e, "block.NewTimePartitionMetaFilter("):
+			storeChain = append(storeChain, block.NewTimePartitionMetaFilter(minT, maxT))
+		case strings.HasPrefix(e, "block.NewLabelShardedMetaFilter("):
+			storeChain = append(storeChain, block.NewLabelShardedMetaFilter(nil))
+		case strings.HasPrefix(e, "block.NewConsistencyDelayMetaFilter("):
+			storeChain = append(storeChain, block.NewConsistencyDelayMetaFilterWithoutMetrics(logger, w.StoreConsistencyDelay))
+		case e == "ignoreDeletionMarkFilter":
+			storeChain = append(storeChain, ignoreDeletionMarkFilter)
+		case strings.HasPrefix(e, "block.NewDeduplicateFilter("):
+			storeChain = append(storeChain, block.NewDeduplicateFilter(w.MetaFetchConcurrency))
+		default:
+			return nil, fmt.Errorf("HARNESS-ERROR wiring drift: store.go filter chain element %q", e)
+		}
+	}
+	metaFetcher, err := block.NewMetaFetcher(logger, w.MetaFetchConcurrency, insBkt, blockLister, "", nil, storeChain)
 	if err != nil {
 		return nil, err
 	}
